@@ -280,7 +280,9 @@ func c06notFoundIsNotAnError(c *Ctx) {
 	if g := c.fn(rule, "core/stores/sqlx", "unmarshalRows"); g != nil {
 		gs := c.paths(rule, g, px.Config{MaxVisits: 2, MaxPaths: 200000})
 		ended := 0
-		isNext := func(e *px.Event) bool { return e.Kind == px.EvCall && e.Call.Method != nil && e.Call.Method.Name() == "Next" }
+		isNext := func(e *px.Event) bool {
+			return e.Kind == px.EvCall && e.Call.Method != nil && e.Call.Method.Name() == "Next"
+		}
 		h2 := c.forall(rule, "core/stores/sqlx.unmarshalRows#stream-error", "a path that left the row loop returns the scanner's Err() (or has found it nil): a stream that broke part-way is reported, not returned as a shorter slice", g, gs, func(p *px.Path) (bool, string) {
 			if p.Exit != px.ExitReturn || len(p.Results) != 1 {
 				return true, ""
